@@ -254,6 +254,15 @@ pub fn run(rep: &mut Report, thorough: bool) {
                         }
                     }
                 }
+                Point::AfterResume => {
+                    // somebody continues the process right after the writer let go of the threads:
+                    // anything about the target captured from here on shows a large counter gap
+                    unsafe {
+                        libc::kill(tt.pid, libc::SIGCONT);
+                    }
+                    std::thread::sleep(std::time::Duration::from_millis(2));
+                    ev.lock().unwrap().push("SIGCONT + 2 ms after resume".into());
+                }
                 Point::Flushed(i) => {
                     if plan2.delay_at == Some(i) {
                         std::thread::sleep(std::time::Duration::from_millis(3));
